@@ -90,7 +90,12 @@ def detect(prop, k):
             # what the unpatched base already reports is subtracted by rule+construct (messages quote line numbers and templates)
             def key(l):
                 m = re.search(r"rule=(\S+) construct=(.*?) at ", l)
-                return (m.group(1), m.group(2)) if m else l
+                if not m: return l
+                if ROUND >= 2:
+                    # later rounds: the base has no template findings, so the message (digits removed) can tell a new finding
+                    # on a construct the base already reports from the old one
+                    return (m.group(1), m.group(2), re.sub(r"\d+", "", l.split(" at ", 1)[1].split(":", 2)[-1])[:160])
+                return (m.group(1), m.group(2))
             basehits = set(key(l) for l in out.splitlines() if l.startswith("FINDING") or l.startswith("UNDECIDED"))
             found[p] = [l for l in found[p] if key(l) not in basehits]
     finally:
